@@ -117,9 +117,26 @@ where
         Err(e) => return Some(Err(e)),
     };
 
+    // The index record stands for one slice: a container may hold several slices, each with
+    // its own index record, and decoding all of them for every record would return the records
+    // of the container once per slice.
+    let landmarks = container.header().landmarks().to_vec();
+
+    if !landmarks
+        .iter()
+        .any(|&landmark| landmark as u64 == index_record.landmark())
+    {
+        return Some(Err(io::Error::new(
+            io::ErrorKind::InvalidData,
+            "invalid index record landmark",
+        )));
+    }
+
     let records = container
         .slices()
-        .map(|result| {
+        .zip(landmarks)
+        .filter(|(_, landmark)| *landmark as u64 == index_record.landmark())
+        .map(|(result, _)| {
             let slice = result?;
 
             let (core_data_src, external_data_srcs) = slice.decode_blocks()?;
